@@ -1233,7 +1233,15 @@ func defineStringExpression() {
 					// parser already points to next token
 					curToken = p.current
 
-					// safely call next because this should always be a string
+					// The lexer continues with a string token after the closing parenthesis
+					// of a template. It does not do so when the template contains another
+					// string template (nested templates are not supported).
+					if !curToken.Is(lexer.TokenString) {
+						p.reportSyntaxError("expected string literal after string template expression")
+						literals = append(literals, "")
+						break
+					}
+
 					p.next()
 
 					missingEnd = true
